@@ -4,6 +4,7 @@ import copy
 import vlib
 import rescommon as rc
 import unicommon as uc
+import reccommon as rec
 from vlib import Verdict, workdir, rng
 
 PID = "C08"
@@ -147,7 +148,11 @@ def run(tier):
               "every exchange (silent, refusing, endless referral staircase, all slow, aliases in circles, 40-link alias "
               "chain). TLC validates every run: finished, no panic, at most 60 s virtual time, at most 5 s per "
               "transport attempt, every returned record supplied by a reply or local data. An evaluation is one faulted "
-              "resolution; distinct = distinct (scenario, fault assignment) pairs.")
+              "resolution; distinct = distinct (scenario, fault assignment) pairs. The resolver as a state machine "
+              "(Recursive.tla) is explored exhaustively inside generated universes, consistent and hostile (alias loops, "
+              "lame zones, delegations to nowhere or without glue), with failed transport attempts and cache loss placed "
+              "anywhere: Live_C08_Ends (every resolution ends, weak fairness), Inv_C08_Stack, Inv_C08_Supplied; every "
+              "recorded resolution is validated as a behaviour of that state machine (RecursiveTrace).")
     v.assumptions = ["time is tokio's paused clock; the scripted transport (hook H3) sits below the 5 s time-out wrappers, "
                      "response_matches_request and the UDP -> TCP fallback, which all run for real"]
     wd = workdir("c08")
@@ -195,6 +200,11 @@ def run(tier):
                   "virtual_ms": ln["runs"][0]["t1"] - ln["runs"][0]["t0"],
                   "exchanges": [[e["t"], e["addr"], "tcp" if e["tcp"] else "udp", e["faultkind"]] for e in ln["runs"][0]["exchanges"]]})
     socket_level(v, wd)
+    # the resolver as a state machine: termination (liveness under weak fairness), bounded question stack, nothing
+    # invented - in consistent and hostile universes, with failed transport attempts and cache loss anywhere;
+    # and the recorded (faulted) resolutions as behaviours of that state machine
+    rec.model_check(v, PID, wd, r_, tier)
+    rec.conformance(v, wd, lines + lines2 + lines3, chunk=400)
     v.distinct = v.evaluations
     if longest < 59000 or not any(k.endswith("Timeout") for k in outcomes):
         raise vlib.ToolError("vacuous run: no resolution was slowed down")
